@@ -59,16 +59,19 @@ func TLSDialWithDialer(dialer *Dialer, network, addr string, config *tls.Config)
 		config.ServerName = host
 	}
 	conn := tls.Client(raw, config)
-	ctx := context.Background()
+	// The original bounds connect and handshake together with a context; crypto/tls then starts a
+	// goroutine of its own that closes the connection when the context ends, and a goroutine the
+	// scheduler has not named gets its name by arrival, which does not replay when several
+	// handshakes time out in the same instant. A deadline on the connection bounds the handshake
+	// at the same instant without that goroutine.
 	if timeout > 0 {
-		var cancel context.CancelFunc
-		ctx, cancel = context.WithDeadline(ctx, start.Add(timeout))
-		defer cancel()
+		raw.SetDeadline(start.Add(timeout))
 	}
-	if err := conn.HandshakeContext(ctx); err != nil {
+	if err := conn.HandshakeContext(context.Background()); err != nil {
 		raw.Close()
 		simrt.Mark()
 		return nil, err
 	}
+	raw.SetDeadline(time.Time{})
 	return conn, nil
 }
